@@ -72,7 +72,7 @@ PROPS = {
         theorems=['C10_hub', 'C10_dispatcher', 'C10_reward', 'C10_registry', 'C10_bsei_token', 'C10_stsei_token',
                   'C10_hub_set_owner', 'C10_hub_accept', 'C10_token_addr_immutable', 'C10_hub_static',
                   'C10_rejected_changes_nothing', 'C10_root_rejected'],
-        kernels=[], scenarios=['basic.ops', 'paramgrid.ops', 'queries.ops'], grid=True, profiles=['config'],
+        kernels=[], scenarios=['basic.ops', 'paramgrid.ops', 'admin.ops', 'queries.ops'], grid=True, profiles=['config'],
         keys=['hub.cfg', 'hub.newowner', 'hub.params', 'rw.cfg', 'rw.newowner', 'dp.cfg', 'dp.newowner', 'rg.cfg',
               'rg.newowner', 'rg.vals', 'tok.bsei.info', 'tok.stsei.info'] + QCFG_KEYS,
         ops=[r'^(hub|reward|disp|reg) ', r'^bond rw', r'^cw \S+ \S+ (mint|burn|updminter)'],
@@ -93,7 +93,7 @@ PROPS = {
         theorems=['C20_params_in_range', 'C20_denoms_fixed', 'C20_hub_params_omitted', 'C20_hub_config_omitted',
                   'C20_disp_config_omitted', 'C20_reward_config_omitted', 'C20_reg_config_omitted',
                   'C20_rejected_changes_nothing'],
-        kernels=[], scenarios=['basic.ops', 'paramgrid.ops', 'queries.ops'], profiles=['config'],
+        kernels=[], scenarios=['basic.ops', 'paramgrid.ops', 'admin.ops', 'queries.ops'], profiles=['config'],
         keys=['hub.params', 'hub.cfg', 'dp.cfg', 'rw.cfg', 'rg.cfg', 'hub.newowner', 'dp.newowner', 'rw.newowner', 'rg.newowner'] + QCFG_KEYS,
         ops=[r'^inst_', r'^hub \S+ (params|config)', r'^disp \S+ (config|swapdenom|swapcontract|oracle)',
              r'^reward \S+ (config|swapdenom)', r'^reg \S+ config'],
@@ -119,7 +119,7 @@ E_ENV = ['operating envelope of DESIGN.md section 4 (E1 magnitudes <= 1e18, E2 t
 
 def _hub(pid, theorems, profiles, kernels=(), extra_keys=(), assumes=()):
     return dict(props_file='Props/%s.v' % pid, theorems=list(theorems), kernels=list(kernels),
-                scenarios=['basic.ops', 'findings.ops', 'branches.ops', 'overflow.ops', 'backlog.ops', 'funds.ops', 'coverage_gaps.ops', 'queries.ops'], profiles=list(profiles), keys=HUBKEYS + list(extra_keys),
+                scenarios=['basic.ops', 'findings.ops', 'branches.ops', 'overflow.ops', 'backlog.ops', 'funds.ops', 'admin.ops', 'coverage_gaps.ops', 'queries.ops'], profiles=list(profiles), keys=HUBKEYS + list(extra_keys),
                 ops=HUBOPS, assumes=E_ENV + list(assumes))
 
 
